@@ -236,6 +236,47 @@ BASIS_ATOMS = {"A_IB": "A_IB", "A_IB_q": "A_IB"}
 BASIS_PAIRS = [("v_P", "J_P"), ("v_P", "v_P_q"), ("a_P", "a_P_u"), ("a_P", "a_P_q")]
 
 
+def element_lookup_rule(ctx, rule="C11.R11"):
+    """Which element a parameter xi belongs to is decided in ONE place, LagrangeKnotVector.element_number (a comparison with the stored knots):
+    the mesh picks the shape functions with it, the rod picks the element's DOF tables with it.  At an interior element boundary the two
+    lookups must give the same element, otherwise shape functions N = (1, 0, ...) of element k are combined with the coordinates of element k-1
+    and the rod reports the state of a node one element away.  A second, arithmetic decider (`int(xi * nelement)`) disagrees with the knot
+    comparison exactly at those boundaries where the floating-point product rounds down (0.7142857142857142 * 7 = 4.999...).  Rule: every
+    `element_number` of the rod classes and every element choice in the mesh's basis evaluation is (a projection of) a call to the knot
+    vector's `element_number`."""
+    rep = ctx.rep
+    n = 0
+    for rel in ("cardillo/rods/_base.py", "cardillo/rods/cosseratRod.py", "cardillo/rods/discretization/mesh1D.py", "cardillo/rods/discretization/lagrange.py"):
+        mod = ctx.repo.modules.get(rel)
+        if mod is None:
+            continue
+        for q, fn in mod.defs().items():
+            if not isinstance(fn, ast.FunctionDef):
+                continue
+            C = f"{rel}:{q}"
+            if fn.name == "element_number" and "KnotVector" not in q:
+                n += 1
+                rets = [r.value for r in ast.walk(fn) if isinstance(r, ast.Return) and r.value is not None]
+                ok = rets and all(any(isinstance(w, ast.Call) and isinstance(w.func, ast.Attribute) and w.func.attr == "element_number" and "knot_vector" in norm_src(w.func.value)
+                                      for w in ast.walk(r)) for r in rets)
+                if ok:
+                    rep.ok(rule, C, f"delegates to the knot vector: `{norm_src(rets[0])[:60]}`")
+                else:
+                    rep.bad(rule, C, rets[0] if rets else fn.name, f"`{norm_src(rets[0])[:70] if rets else fn.name}` decides the element without the knot vector's element_number, which the mesh uses to pick "
+                            "the shape functions: at interior element boundaries where the arithmetic rounds the other way the DOF tables of element k-1 are combined with the shape "
+                            "functions of element k (the rod reports the state of a node one element away)", f"{rel}:{fn.lineno}")
+            else:
+                # arithmetic element choices elsewhere:  int(xi * nelement) / floor(xi * nelement)
+                for w in ast.walk(fn):
+                    if isinstance(w, ast.Call) and (dotted(w.func) or "").split(".")[-1] in ("int", "floor") and w.args \
+                            and any(isinstance(x, (ast.Attribute, ast.Name)) and (dotted(x) or "").split(".")[-1] in ("nelement", "nel") for x in ast.walk(w.args[0])) \
+                            and any(isinstance(x, ast.Name) and x.id in ("xi", "xis") for x in ast.walk(w.args[0])):
+                        n += 1
+                        rep.bad(rule, C, w, f"`{norm_src(w)[:60]}` computes an element number arithmetically next to the knot-vector lookup", f"{rel}:{w.lineno}")
+    if n < 1:
+        raise AnalysisError(f"{rule}: the rod's element_number vanished")
+
+
 def basis_degree_rule(ctx, rule="C11.R10"):
     """Differentiation with respect to q or u never changes how often the cross-section basis enters a product: d/du leaves A_IB alone,
     d/dq turns one factor A_IB into A_IB_q.  So the number of basis factors (A_IB and A_IB_q together) of every monomial of a stated
@@ -274,6 +315,8 @@ def basis_degree_rule(ctx, rule="C11.R10"):
 
 def run(ctx):
     rep = ctx.rep
+    rep.rule("C11.R11", "one decider for 'which element contains xi': the rod's element lookup delegates to the knot vector the mesh evaluates the shape functions with", 1)
+    element_lookup_rule(ctx)
     rep.rule("C11.R10", "a stated derivative has the same number of cross-section-basis factors per monomial as its primal (K10 multiplicities; the R12 basis is not orthogonal)", 4)
     basis_degree_rule(ctx)
     rep.rule("C11.R8", "dependence monotonicity (K13) over every primal/derivative pair of K5: a stated derivative reads no datum its primal does not read", 20)
@@ -513,4 +556,8 @@ NEUTRAL = [
 MUTANTS += [
     dict(id="c11-r10-seed", canary=True, what="[seeded by sub-agent] rod v_P written as v_C + (A Omega) x (A r)", file="cardillo/rods/_base.py",
          old="        return v_C + A_IB @ cross3(B_Omega, B_r_CP)\n", new="        return v_C + cross3(A_IB @ B_Omega, A_IB @ B_r_CP)\n", expect="C11.R10"),
+]
+MUTANTS += [
+    dict(id="c11-r11-seed", canary=True, what="[seeded by sub-agent] rod element lookup computed as int(xi * nelement)", file="cardillo/rods/_base.py",
+         old="        return self.knot_vector_r.element_number(xi)[0]\n", new="        xi = np.atleast_1d(xi)[0]\n        return min(int(xi * self.nelement), self.nelement - 1)\n", expect="C11.R11"),
 ]
